@@ -68,7 +68,7 @@ def run(ctx):
             head = "position startpos" if (f == START and use_startpos) else "position fen " + f
             return head + (" moves " + " ".join(moves) if moves else "")
         lines = []
-        kind = gi % 8 if gi >= len(reg) else 0
+        kind = gi % 9 if gi >= len(reg) else 0
         k = max(1, len(ms) // 2)
         if kind == 0:
             lines = [poscmd(fen, ms)]
@@ -89,6 +89,13 @@ def run(ctx):
             # incremental `position` that rolls the board back but keeps its own record of the moves played)
             bad = rng.choice(["0000", ms[k][2:4] + ms[k][0:2] if k < len(ms) else "a1a1", "a1a1"])
             lines = [poscmd(fen, ms[:k]), poscmd(fen, ms[:k + 2] + [bad]), poscmd(fen, ms[:k + 2])]
+        elif kind == 8:      # the same placement / side / rights / en-passant square given with OTHER counters, and the same moves
+            # extended: everything written in the second FEN counts (seeded change r7C07: an incremental `position` that recognises "the
+            # same game" by the position key, which does not cover the counters)
+            ff = fen.split()
+            f1 = " ".join(ff[:4] + ["1", "5"])
+            f2 = " ".join(ff[:4] + [rng.choice(["37", "99", "0"]), rng.choice(["60", "1", "200"])])
+            lines = [poscmd(f1, ms[:k], False), poscmd(f2, ms[:k + 1], False), poscmd(f1, ms[:k + 2], False)]
         else:                # the same, then the game shrinks again and is extended differently
             bad = rng.choice(["0000", "h9h8", "e1e9"])
             lines = [poscmd(fen, ms[:k]), poscmd(fen, ms[:k + 1] + [bad] + ms[k + 1:k + 2]), poscmd(fen, ms[:k + 3]), poscmd(fen, ms[:k + 1]),
